@@ -12,7 +12,7 @@ import (
 func init() {
 	register(&Prop{
 		ID:             "C09",
-		Pkgs:           []string{"service/state", "service"},
+		Pkgs:           []string{"service/state", "service", "service/contract"},
 		Run:            runC09,
 		MinObligations: 25,
 		Technique:      "static analysis: wait-before-read ordering on dependency links, realize-before-real ordering on every access to the shared world state, lock discipline on the virtual-state fields, dispatch structure of the concurrent executor (lock requests chained in block order, snapshot first, commit before done)",
@@ -451,7 +451,59 @@ func runC09Deps(c *Ctx) {
 // (2) both executors refresh the context's system information before each
 // transaction (the parallel worker must see what an earlier governance
 // transaction changed, as the sequential loop does).
+// runC09Third: lock-table rules added for the second list of independent mutants.
+func runC09Third(c *Ctx) {
+	const pkg = "service/state"
+	wl, ok := c.constVal(pkg, "AccountWriteLock")
+	if !ok {
+		c.undecided("C09.lock-table", "AccountWriteLock", token.NoPos, "constant not found")
+		return
+	}
+	// a virtual state hands out the live account object only to a write-locker
+	n := 0
+	for _, f := range c.pkgFuncs(pkg) {
+		for _, st := range fieldStores([]*ssa.Function{f}, "lockedAccountState", "state") {
+			cl, isCall := unwrap(st.Store.Val).(*ssa.Call)
+			if !isCall || methodName(cl.Common()) != "GetAccountState" || !strings.Contains(render(cl), ".real.") {
+				continue
+			}
+			n++
+			c.requireAt("C09.lock-table", fnName(f)+" hands out the live account state", st.Store, wEQ("the entry holds the write lock", -wl, t(1, `\.lock$`)))
+		}
+	}
+	if n < 2 {
+		c.undecided("C09.lock-table", "live account state hand-outs", token.NoPos, fmt.Sprintf("expected ≥2 (applyLockRequests, getAccountStateInLock), found %d", n))
+	}
+	// an account without a locker of its own depends on the last world-locker
+	if f := c.mustFn(pkg, "worldVirtualContext", "getLocker"); f != nil {
+		seen := false
+		for _, e := range exitAlts(f) {
+			r := render(e.Results[0])
+			if r == "$r.lastWorldLocker" {
+				seen = true
+			}
+			if _, isC := e.Results[0].(*ssa.Const); isC {
+				c.violate("C09.lock-table", "getLocker falls back to the last world-locker", e.pos(), "an exit answers `no locker` outright: a transaction after a world-locked one does not wait for it and reads state the world-locker is still writing")
+			}
+		}
+		c.check(seen, "C09.lock-table", "getLocker falls back to the last world-locker", f.Pos(), "return lastWorldLocker", "no exit returns the last world-locker")
+	}
+	// a handler that moves value write-locks both ends
+	if f := c.mustFn("service/contract", "CommonHandler", "Prepare"); f != nil {
+		m := 0
+		for _, st := range fieldStores([]*ssa.Function{f}, "LockRequest", "Lock") {
+			m++
+			k, isK := constInt(st.Store.Val)
+			c.check(isK && k == wl, "C09.lock-table", "CommonHandler.Prepare requests write locks", st.Store.Pos(), "AccountWriteLock", "a party of the transfer is requested with lock "+render(st.Store.Val)+": it is handed a read-only copy, the transfer's effect on it is lost or later transactions on it are not ordered behind this one")
+		}
+		if m < 2 {
+			c.undecided("C09.lock-table", "CommonHandler.Prepare", f.Pos(), fmt.Sprintf("%d lock requests found, expected sender and recipient", m))
+		}
+	}
+}
+
 func runC09Second(c *Ctx) {
+	runC09Third(c)
 	nB := 0
 	for _, f := range c.pkgFuncs("service/state") {
 		if f.Signature.Recv() == nil || namedOf(f.Signature.Recv().Type()) != "worldVirtualState" {
